@@ -185,4 +185,10 @@ theorem C04_gen_write_audio_passes (m : Muxer) (pts : F64) (d : Bytes) :
     · simp [firstSome, h0, ha, h2, h3, h3', h4]
   · simp [firstSome, h0, ha, h2]
 
+/-- `convert_mp4_error`: the translated table of "which API error a writer error becomes (and whether the frame
+    index is reported)" is the model's `convertErr`, for every writer error and index — the "errors name the
+    violation" half of C04 for refusals that come from the writer -/
+theorem C04_gen_convert_error (e : WErr) (idx : Nat) : convert_mp4_error e idx = convertErr e idx := by
+  cases e <;> rfl
+
 end Muxide.Props.C04Generated
